@@ -785,6 +785,10 @@ pub fn write_evidence(prop: &str, tier: &str, seed: u64, b: &Batch, violations: 
         ("callback_panics", m.totals.get("callback_panics").copied().unwrap_or(0)),
         ("constructor_or_mapping_failures", m.totals.get("ctor_failures").copied().unwrap_or(0)),
         ("arena_drops", m.totals.get("arena_drops").copied().unwrap_or(0)),
+        ("destructor_panics_fired", m.totals.get("destructor_panics_fired").copied().unwrap_or(0)),
+        ("address_reuses_forced", m.totals.get("address_reuses_forced").copied().unwrap_or(0)),
+        ("builders_abandoned_or_faulted", m.flags.get("C18.abandoned").copied().unwrap_or(0)),
+        ("rootless_contexts_torn_down", m.cells.get("rootless").copied().unwrap_or(0)),
     ]
     .into_iter()
     .collect();
@@ -827,8 +831,8 @@ pub fn write_evidence(prop: &str, tier: &str, seed: u64, b: &Batch, violations: 
         "assumptions": [
             "client Collect impls are correct apart from injected panics",
             "default feature set, x86-64 Linux, one thread",
-            "schedules, graphs (<= 48 reachable objects), pacings (a dyadic family + DEFAULT + stop-the-world) and client behaviours (a fixed op vocabulary) are sampled, not enumerated",
-            "allocation failure and panicking destructors are out of scope"
+            "schedules, graphs (<= 48 reachable objects; <= 144 in the long runs of the thorough tier), pacings (a dyadic family + DEFAULT + stop-the-world) and client behaviours (a fixed op vocabulary) are sampled, not enumerated",
+            "allocation failure is out of scope; destructors unwind only where the fault kind ArmDropFault is drawn (C02, C04, C05); clients never leak borrow guards"
         ],
         "wall_s": wall,
         "violations": violations,
